@@ -92,6 +92,8 @@ type c06Raw struct {
 	Hex    string `json:"decoded_hex"`
 	FixSum bool   `json:"recompute_checksum"`
 	Why    string `json:"what"`
+	// StrHex, when set, is the string itself (hex of its bytes), for substitutions at the string level
+	StrHex string `json:"string_hex,omitempty"`
 }
 
 func c06EvalRaw(w *mc.W, cas c06Raw) {
@@ -103,6 +105,9 @@ func c06EvalRaw(w *mc.W, cas c06Raw) {
 		copy(b[len(b)-4:], ck[:4])
 	}
 	s := ref.B58Encode(b)
+	if cas.StrHex != "" {
+		s = string(mc.UnHex(cas.StrHex))
+	}
 	var d *bchutil.WIF
 	var err error
 	if msg, p := mc.Guard(func() { d, err = bchutil.DecodeWIF(s) }); p {
@@ -153,6 +158,14 @@ func runC06(c *mc.Ctx) {
 		scalars = append(scalars, append(make([]byte, 32-len(b)), b...))
 	}
 	scalars = append(scalars, bytes.Repeat([]byte{0xff}, 32), append(bytes.Repeat([]byte{0x77}, 31), 0x01))
+	for _, k := range shortCoordScalars() { // public points with two leading zero bytes in X or Y, both Y parities
+		b := k.Bytes()
+		scalars = append(scalars, append(make([]byte, 32-len(b)), b...))
+	}
+	for _, tp := range testPoints() { // incl. points with one leading zero byte in a coordinate
+		b := tp.K.Bytes()
+		scalars = append(scalars, append(make([]byte, 32-len(b)), b...))
+	}
 	for z := 1; z <= 31; z++ {
 		b := make([]byte, 32)
 		for i := z; i < 32; i++ {
@@ -243,10 +256,33 @@ func runC06(c *mc.Ctx) {
 			}
 			raws = append(raws, c06Raw{Hex: mc.Hex(b), Why: "checksum corrupted (pattern)"})
 		}
+		str := ref.B58Encode(full) // every byte value at every position of the string itself
+		for pos := 0; pos < len(str); pos++ {
+			for v := 0; v < 256; v++ {
+				if byte(v) != str[pos] {
+					m := []byte(str)
+					m[pos] = byte(v)
+					raws = append(raws, c06Raw{StrHex: mc.Hex(m), Why: "one character of the string replaced by another byte value"})
+				}
+			}
+		}
 		for v := 0; v < 256; v++ { // every network byte
 			b := append([]byte{}, full...)
 			b[0] = byte(v)
 			raws = append(raws, c06Raw{Hex: mc.Hex(b), FixSum: true, Why: "network byte value"})
+		}
+	}
+	// key bytes at and around the ends of the scalar range (the statement puts no range condition on
+	// the 32 key bytes: such strings are accepted and must re-encode to themselves byte for byte)
+	for _, k := range []*big.Int{big.NewInt(0), big.NewInt(1), new(big.Int).Sub(n, big.NewInt(1)), n, new(big.Int).Add(n, big.NewInt(1)),
+		new(big.Int).Sub(new(big.Int).Lsh(big.NewInt(1), 256), big.NewInt(1)), new(big.Int).Lsh(big.NewInt(1), 248), new(big.Int).Lsh(n, 0).Rsh(n, 8)} {
+		kb := k.Bytes()
+		kb = append(make([]byte, 32-len(kb)), kb...)
+		for _, id := range []byte{0x80, 0xef} {
+			for _, tail := range [][]byte{{}, {0x01}} {
+				b := append(append(append([]byte{id}, kb...), tail...), 0, 0, 0, 0)
+				raws = append(raws, c06Raw{Hex: mc.Hex(b), FixSum: true, Why: "key bytes at the ends of the scalar range"})
+			}
 		}
 	}
 	c.Space("raw decoded payload variants", int64(len(raws)))
